@@ -110,16 +110,16 @@ _METHODS = {}      # one Method per source text: calls of one kernel with differ
 
 
 class Item:
-    def __init__(self, name, src, args, S, omits_parameter=False):
-        self.name, self.src, self.args = name, src, args
+    def __init__(self, name, src, args, S, omits_parameter=False, kwargs=None, native_args=None):
+        self.name, self.src, self.args, self.kwargs = name, src, args, dict(kwargs or {})
         if src not in _METHODS:
             _METHODS[src] = kernels.define(src)["main"]
         self.method = _METHODS[src]
-        nat = tc.run_native(src, "main", args, S)
+        nat = tc.run_native(src, "main", native_args if native_args is not None else args, S)
         self.native_failed = nat[0] == "err"
         self.ops = nat[1]
         self.usable = tc.ops_in_domain(self.ops)
-        st, r = tc.run_impl(self.method, args, S)
+        st, r = tc.run_impl(self.method, args, S, kwargs=self.kwargs)
         self.fresh = tc.abstract_path(r) if st == "ok" else None
         self.fresh_error = None if st == "ok" else str(r).split(":")[0]        # the class of the exception a fresh instance raises
         if omits_parameter:
@@ -144,7 +144,7 @@ def run_history(ctx, items, hist, S, label):
     seen_ids = {}
     for pos, ix in enumerate(hist):
         it = items[ix]
-        st, r = tc.run_impl(it.method, it.args, tracer=ti)
+        st, r = tc.run_impl(it.method, it.args, tracer=ti, kwargs=it.kwargs)
         rep = {"history": [items[j].name for j in hist], "sources": {items[j].name: items[j].src for j in set(hist)},
                "args": {items[j].name: repr(items[j].args) for j in set(hist)}, "at_call": pos}
         if st == "ok":
@@ -241,6 +241,17 @@ def run(ctx):
                  (0.5,), S, omits_parameter=True) for v in ("5.0", "1.0")]
     for h in itertools.permutations(range(2), 2):
         cases.append(run_history(ctx, dflt + [fixed[0]], list(h) + [2, h[0]], S, "same-name-defaults"))
+    # calls that bind parameters BY KEYWORD: all of them, a surplus name next to a complete binding, and a call that leaves a parameter
+    # unbound (a failing call like any other: the instance must serve the next call as a fresh one would)
+    ksrc = "@tweezer\ndef main(x: float, y: float):\n    g = grid.from_positions([x], [y])\n    action.set_loc(g)\n    action.move(grid.shift(g, 1.0, y))\n"
+    kw_items = [Item("kw-complete", ksrc, (0.5,), S, kwargs={"y": 2.0}, native_args=(0.5, 2.0)),
+                Item("kw-all", ksrc, (), S, kwargs={"y": 1.5, "x": 0.25}, native_args=(0.25, 1.5)),
+                Item("kw-unbound-parameter", ksrc, (0.5,), S, kwargs={"z": 2.0}, omits_parameter=True),
+                Item("positional", ksrc, (0.5, 1.0), S)]
+    for it in kw_items:
+        ctx.hist("keyword_item_outcome", f"{it.name}: {'path' if it.fresh is not None else 'raises ' + str(it.fresh_error)}")
+    for hist in itertools.permutations(range(len(kw_items)), 3):
+        cases.append(run_history(ctx, kw_items, list(hist) + [3], S, "keyword-calls"))
     typed_pool = typed + [fixed[3], fixed[4]]
     for n in (2, 3):
         for hist in itertools.permutations(range(len(typed_pool)), n):
